@@ -84,6 +84,9 @@ where
     let mut r#match = None;
     let mut len = 0;
 
+    // The bytes of a character that is split across two buffers.
+    let mut partial = Vec::new();
+
     loop {
         let src = reader.fill_buf()?;
 
@@ -99,12 +102,18 @@ where
             None => (src, src.len()),
         };
 
-        let s = str::from_utf8(buf).map_err(|e| io::Error::new(io::ErrorKind::InvalidData, e))?;
-        dst.push_str(s);
+        push_utf8(dst, &mut partial, buf)?;
 
         len += n;
 
         reader.consume(n);
+    }
+
+    if !partial.is_empty() {
+        return Err(io::Error::new(
+            io::ErrorKind::InvalidData,
+            "incomplete utf-8 byte sequence",
+        ));
     }
 
     let is_eol = matches!(r#match, Some(LINE_FEED));
@@ -114,6 +123,35 @@ where
     }
 
     Ok((len, is_eol))
+}
+
+// Appends `src` to `dst`, carrying an incomplete trailing character over to the next call.
+fn push_utf8(dst: &mut String, partial: &mut Vec<u8>, src: &[u8]) -> io::Result<()> {
+    if partial.is_empty() {
+        match str::from_utf8(src) {
+            Ok(s) => {
+                dst.push_str(s);
+                return Ok(());
+            }
+            Err(e) if e.error_len().is_none() => {}
+            Err(e) => return Err(io::Error::new(io::ErrorKind::InvalidData, e)),
+        }
+    }
+
+    partial.extend_from_slice(src);
+
+    let valid_up_to = match str::from_utf8(partial) {
+        Ok(s) => s.len(),
+        Err(e) if e.error_len().is_none() => e.valid_up_to(),
+        Err(e) => return Err(io::Error::new(io::ErrorKind::InvalidData, e)),
+    };
+
+    let s = str::from_utf8(&partial[..valid_up_to])
+        .map_err(|e| io::Error::new(io::ErrorKind::InvalidData, e))?;
+    dst.push_str(s);
+    partial.drain(..valid_up_to);
+
+    Ok(())
 }
 
 #[cfg(test)]
